@@ -10,7 +10,7 @@
                            DelegatesTo assignment is stored past it);
    and listenable / all_listenable exclude the third one (del of a listenable=False attribute). *)
 From Coq Require Import ZArith List Bool Arith.
-From TV Require Import Common.Harness C11.Model C11.Law C11.Proofs C11.Invariants C11.Chain.
+From TV Require Import Common.Harness C11.Model C11.Law C11.Proofs C11.Invariants C11.Chain C11.Invariants2.
 Import ListNotations.
 Open Scope Z_scope.
 
@@ -160,6 +160,35 @@ Proof.
 Qed.
 Print Assumptions forward_iff_linked.
 
+(* the same for ALL class tables and pools of the correspondence: attributes declared listenable=False,
+   objects constructed with keyword arguments that give PrototypedFrom attributes a local value
+   (init_state_k), subclasses re-declaring a deferring attribute (= their flattened table), delegates
+   from a default initialiser (= a dict entry).  The forwarder is attached iff the attribute is
+   listenable and has no local value - after every history. *)
+Theorem forward_iff_linked_general :
+  forall cs os ops,
+  wf_classes cs ->
+  (forall o n d r, find_trait (init_state_k cs os) o n = Some (Deleg d r true) ->
+                   dict_get (init_state_k cs os) o n = None) ->
+  Forall (fun o => match o with Set_ x _ _ | Del x _ => (x < length os)%nat end) ops ->
+  let st := final (init_state_k cs os) ops in
+  (forall o n d r, find_trait st o n = Some (Deleg d r true) -> dict_get st o n = None) /\
+  (forall o n, (o < length (objs st))%nat ->
+     (has_node (o, n) (ltab st) = true <->
+      (deferring st o n /\ dict_get st o n = None /\ listenable st o n = true))) /\
+  (forall f x w e, In e (change_at f st x w) ->
+     (fst e = x \/ has_node (fst e) (ltab st) = true) /\ snd e = w) /\
+  (forall f x y w, In y (ltab st) -> depends_on st y x = true ->
+     In (fst y, snd y, w) (change_at (S (S f)) st x w)).
+Proof.
+  intros cs os ops Hwf Hmod Hr st.
+  assert (inv2 st) as [Hm Hl] by (apply history_inv2; [apply init_inv2_k; assumption|exact Hr]).
+  split; [exact Hm|]. split; [exact Hl|]. split.
+  - intros f x w e Hin. split; [exact (notified_only_if_attached st f x w e Hin)|exact (notified_with_new_value st f x w e Hin)].
+  - intros f x y w Hy Hd. exact (attached_dependent_notified st f x y w Hy Hd).
+Qed.
+Print Assumptions forward_iff_linked_general.
+
 (* ---------- the two findings: the model, which follows the code, violates the law ---------- *)
 Definition X := [0%nat]. Definition Y := [1%nat]. Definition A := [2%nat]. Definition B := [3%nat].
 Definition R := [4%nat]. Definition PARENT := [20%nat].
@@ -215,6 +244,33 @@ Theorem del_not_listenable_refuted :
   snd (fst (del_attr st_nl 1%nat X)) = Raised KeyError.
 Proof. vm_compute. repeat split; reflexivity. Qed.
 Print Assumptions del_not_listenable_refuted.
+
+(* Non-vacuity of forward_iff_linked_general: a pool with a listenable=False attribute and an object built
+   with a constructor keyword (a = 5); its hypotheses are decided by the sound checkers of Invariants2.v;
+   the history deletes both kinds of local value (the listenable=False one raises KeyError). *)
+Definition child_k : cls :=
+  mkC [11%nat] [(PARENT, Link); (X, Deleg PARENT RSame false); (A, Deleg PARENT (RExplicit X) false);
+                (Y, Deleg PARENT (RExplicit X) true)] [X].
+Definition pool_k : list obj := [mkO 0 []; mkO 1 [(PARENT, VObj 0%nat); (A, VInt 5)]].
+Example general_invariant_nontrivial :
+  let ops := [Set_ 1 X (VInt 9); Set_ 0 X (VInt 2); Del 1 X; Del 1 A; Set_ 1 Y (VInt 4)]%nat in
+  let st := final (init_state_k [par; child_k] pool_k) ops in
+  wf_classes [par; child_k]
+  /\ ltab (init_state_k [par; child_k] pool_k) = [(1%nat, Y)]
+  /\ map (fun p => ob_out (snd p)) (run (init_state_k [par; child_k] pool_k) ops)
+     = [Done; Done; Raised KeyError; Done; Done]
+  /\ ltab st = [(1%nat, Y); (1%nat, A)]
+  /\ (has_node (1%nat, A) (ltab st) = true <->
+      (deferring st 1%nat A /\ dict_get st 1%nat A = None /\ listenable st 1%nat A = true)).
+Proof.
+  intros ops st. split; [apply wf_classesb_sound; vm_compute; reflexivity|].
+  split; [vm_compute; reflexivity|]. split; [vm_compute; reflexivity|]. split; [vm_compute; reflexivity|].
+  refine (proj1 (proj2 (forward_iff_linked_general [par; child_k] pool_k ops _ _ _)) 1%nat A _).
+  - apply wf_classesb_sound. vm_compute. reflexivity.
+  - apply modify_no_localb_sound. vm_compute. reflexivity.
+  - unfold ops. repeat constructor.
+  - vm_compute. repeat constructor.
+Qed.
 
 (* Non-vacuity: a pool meeting all hypotheses of the theorems above (chain of two deferrals, the '*'
    style included), with a history that stores through the chain, breaks and restores a link, is
